@@ -187,7 +187,13 @@ func runDial(c DialCase) pbt.Verdict {
 					k++
 				}
 			}
-			return k >= len(want)
+			dialledUnjudged := 0
+			for _, i := range s.Peers {
+				if !judged[i] && peers[i].count() > before[i] {
+					dialledUnjudged++
+				}
+			}
+			return k >= len(want)+dialledUnjudged
 		})
 		for _, e := range h.VH.Pending() {
 			if e.Kind == "failedOutgoingHandshakeEvent" {
@@ -196,6 +202,12 @@ func runDial(c DialCase) pbt.Verdict {
 		}
 		for i := range want {
 			until[i] = now.Add(dur)
+		}
+		// a peer listed exactly at its expiry instant is not judged, but whatever happened is tracked
+		for _, i := range s.Peers {
+			if !judged[i] && peers[i].count() > before[i] {
+				until[i] = now.Add(dur)
+			}
 		}
 	}
 	cl := []string{}
